@@ -255,6 +255,25 @@ func (p *Path) callBuiltin(b *ssa.Builtin, args []Value) Value {
 		return nil
 	case "recover":
 		return Iface{}
+	case "real", "imag":
+		f, ok := args[0].(FloatVal)
+		if !ok {
+			p.unsupported("%s of %T", b.Name(), args[0])
+		}
+		k := types.Float64
+		if f.kind == types.Complex64 {
+			k = types.Float32
+		}
+		if f.isC {
+			if b.Name() == "real" {
+				return FloatVal{kind: k, isC: true, cf: real(f.cc)}
+			}
+			return FloatVal{kind: k, isC: true, cf: imag(f.cc)}
+		}
+		if b.Name() == "real" {
+			return FloatVal{kind: k, bits: f.bits}
+		}
+		return FloatVal{kind: k, bits: f.bits2}
 	case "min", "max":
 		p.unsupported("builtin %s", b.Name())
 	}
